@@ -103,25 +103,28 @@ void HttpServer::serve(Socket client)
 				if (!response.hasHeader("Cache-Control"))
 					response.setHeader("Cache-Control", "max-age=60, public");
 				
+				bool ranged = false;
 				if (request.hasHeader("Range"))
 				{
 					String range = request.header("Range");
-					if (range.startsWith("bytes=") && !range.contains(',')) // no multiple ranges
+					int dash = range.indexOf('-');
+					if (range.startsWith("bytes=") && !range.contains(',') && dash > 6) // one "first-[last]" range
 					{
-						Array<String> parts = range.substr(6).split('-');
-						int begin = parts[0];
-						int end = parts[1];
+						int begin = range.substring(6, dash);
+						int end = (dash < range.length() - 1) ? (int)range.substring(dash + 1) : -1; // -1: up to the end
 						response.setCode(206);
 						response.setHeader("Content-Range", "+");
 						response.putFile(file.path(), begin, end);
+						ranged = true;
 					}
 				}
-				else
+				if (!ranged) // no Range header or an unsupported form: the whole file
 					response.putFile(file.path());
 
 				if (response.hasHeader("Content-Range") && response.header("Content-Range").contains('*'))
 				{
 					response.setCode(416);
+					response.put(""); // not the file: write() would send it in full
 					response.write();
 				}
 			}
